@@ -814,6 +814,9 @@ func doStep(r *res.Request, st string) {
 			return
 		}
 		r.Error(&res.Error{Code: "custom.error", Message: `m"sg`, Data: map[string]int{"d": 1}})
+	case "error-nilres":
+		// Error with a nil pointer of the library's own error type (an unset error variable passed on)
+		r.Error((*res.Error)(nil))
 	case "error-plain":
 		r.Error(errors.New("plain"))
 	case "error-res-ctl":
@@ -971,10 +974,10 @@ func doStep(r *res.Request, st string) {
 }
 
 var replySteps = map[string][]string{
-	"access": {"access", "error-panic-data", "access-none", "accessdenied", "accessgranted", "notfound", "invalidquery", "error-res", "error-plain", "error-res-ctl", "invalidquery-ctl"},
+	"access": {"access", "error-panic-data", "access-none", "accessdenied", "accessgranted", "notfound", "invalidquery", "error-res", "error-plain", "error-nilres", "error-res-ctl", "invalidquery-ctl"},
 	"get":    {"model", "model-panic-marshal", "error-panic-data", "model-bad-reserr", "collection-bad-wrapped", "querymodel", "collection", "model-bad", "notfound", "invalidquery", "error-res", "error-plain", "error-res-ctl", "error-plain-ctl"},
 	"new":    {"new", "new-bad", "notfound", "methodnotfound", "invalidparams", "error-res"},
-	"call":   {"ok", "ok-nil", "ok-bad", "ok-panic-marshal", "error-panic-data", "ok-bad-reserr", "ok-bad-wrapped", "resource", "resource-bad", "notfound", "methodnotfound", "invalidparams", "invalidparams-msg", "invalidquery", "error-res", "error-plain", "error-res-ctl", "error-plain-ctl", "invalidparams-ctl", "invalidquery-ctl"},
+	"call":   {"ok", "ok-nil", "ok-bad", "ok-panic-marshal", "error-panic-data", "ok-bad-reserr", "ok-bad-wrapped", "resource", "resource-bad", "notfound", "methodnotfound", "invalidparams", "invalidparams-msg", "invalidquery", "error-res", "error-plain", "error-nilres", "error-res-ctl", "error-plain-ctl", "invalidparams-ctl", "invalidquery-ctl"},
 }
 var otherSteps = []string{"tokenreset", "tokenreset-empty", "tokenreset-mixed", "tokenreset-dup", "tokenreset-none", "ev-dollar", "ev-punct", "ev-empty", "ev-space", "ev-wild", "ev-gt", "ev-q", "ev-del", "ev-dot", "timeout-max", "timeout-sub", "timeout-zero", "ev-custom-bad", "ev-change-bad", "ev-add-bad", "timeout", "timeout-neg", "ev-custom", "ev-reserved", "ev-malformed", "ev-change", "ev-change-empty", "ev-add", "ev-add-neg", "ev-remove",
 	"ev-remove-neg", "ev-create", "ev-delete", "ev-reaccess", "ev-reset", "panic-res", "panic-err", "panic-str", "panic-int", "panic-nilerr", "panic-typednil", "panic-errpanics", "panic-nil", "panic-str-ctl",
